@@ -625,3 +625,5 @@ func runC04Channel(c C04Case, cd wire.Codec, stream []byte, ends []int, want [][
 
 // wireNone is the zero codec configuration (plain pseudo-random payloads).
 var wireNone = wire.Codec{}
+
+var bgCtx = context.Background()
